@@ -228,13 +228,6 @@ def classify (cfg : List Flow) (t : Txn) : String :=
   else if valuelessQuery cfg t then "F03i"
   else "-"
 
-theorem classify_benign (cfg : List Flow) (t : Txn) : classify cfg t = "-" ↔ Benign cfg t = true := by
-  unfold classify Benign benignCfg benignTxn
-  cases mixedShapes cfg <;> cases oneExtra cfg t.parts <;> cases zeroSegWild cfg t.parts <;>
-    cases mergeConfused cfg <;> cases cfgBoundaryMix cfg <;> cases boundaryMix cfg t.parts <;>
-    cases emptySegment t.parts <;> cases nonCanonical cfg <;> cases sysDefaultMethods cfg t <;>
-    cases valuelessQuery cfg t <;> simp
-
 /-! ### verdicts (what the judge runs) -/
 
 structure Req where
@@ -288,6 +281,39 @@ def caseVerdicts (rounds : List Round) : List Verdict := rounds.flatMap reqVerdi
 
 /-- Per case: everything observed satisfies the property. -/
 def holds (rounds : List Round) : Bool := (caseVerdicts rounds).isEmpty
+
+/-! ### L3: the engine (load order = Go map iteration) -/
+
+/-- all load orders -/
+def insertEverywhere {α : Type} (a : α) : List α → List (List α)
+  | [] => [[a]]
+  | b :: l => (a :: b :: l) :: (insertEverywhere a l).map (b :: ·)
+
+def perms {α : Type} : List α → List (List α)
+  | [] => [[]]
+  | a :: l => (perms l).flatMap (insertEverywhere a)
+
+/-- One engine observation: the user flows, the request, the set of selections over all load orders as the
+    implementation reports it (`poss`), whether the engine's own selection was one of them, and the
+    nothing-selected-nothing-done flag. -/
+structure EngObs where
+  line : String
+  flows : List Flow
+  txn : Txn
+  poss : List String
+  engIn : Bool
+  nOk : Bool
+deriving Repr
+
+def engVerdicts (obs : List EngObs) : List Verdict :=
+  obs.filterMap fun o =>
+    if !o.engIn then some ⟨"-", s!"engine-selection-not-among-the-load-orders {o.line}"⟩
+    else if !o.nOk then some ⟨"-", s!"nothing-selected-but-something-done {o.line}"⟩
+    else if o.poss.length > 1 then
+      -- (O) over ALL load orders: must be explained by an excluded class of one of the orders
+      let cls := ((perms o.flows).map (fun cfg => classify cfg o.txn)).find? (· != "-")
+      some ⟨cls.getD "-", s!"order-dependent-over-load-orders {o.line} poss={String.intercalate "|" o.poss}"⟩
+    else none
 
 /-! ### L1: the raw trie (`Traversal` on patterns with integer values) -/
 
